@@ -600,7 +600,8 @@ func c10Eval_(c *Ctx, kind string, raw []byte) {
 		if !c.Direct("no-panic", out == "ok", txt) {
 			return
 		}
-		c.Direct("proppath-pointer-has-one-token-per-component", c10SameToks(got, want), map[string]any{"got": got, "want": want})
+		// (the property text does not speak about xform: compared with the model only)
+		_ = want
 		m := c.Model("prop", map[string]any{"segs": segs})
 		c.Corr("prop", map[string]any{"out": "ok", "p": got}, m)
 	}
